@@ -325,12 +325,26 @@ func c06Unmarshal(o *out) {
 	p := loadPkg("cue/literal")
 	fd := p.findFunc("NumInfo.decimal")
 	found := ""
+	mul := ""
 	if fd != nil && fd.Body != nil {
 		for _, st := range fd.Body.List {
 			if src := p.src(st); strings.Contains(src, "UnmarshalText") {
 				found = src
 			}
 		}
+		ast.Inspect(fd.Body, func(n ast.Node) bool {
+			if call, ok := n.(*ast.CallExpr); ok {
+				if src := p.src(call); strings.Contains(src, ".Mul(") && strings.Contains(src, "mulToRat") {
+					mul = src
+				}
+			}
+			return true
+		})
+	}
+	if mul == "" {
+		fmt.Fprintf(o, "def mulCall_unavailable : Unit := ()\n")
+	} else {
+		fmt.Fprintf(o, "/-- the multiplication by the SI/IEC multiplier in NumInfo.decimal (which context) -/\ndef mulCall : String := %s\n", leanStr(mul))
 	}
 	if found == "" {
 		fmt.Fprintf(o, "def unmarshalStmt_unavailable : Unit := ()\n")
